@@ -133,10 +133,23 @@ def compare(case, recs, compare_obs, out):
     return True
 
 
+def documented_allow_none(case, cid):
+    """`allow_none` as documented (base.py): the cells' own setting; if that is None the space's; if that is None the
+    model's (False unless set) - computed from the program description, not read from modelx"""
+    cell = next(c for c in case["cells"] if c["id"] == cid)
+    for v in (cell.get("allow_none"), case["cells"][0].get("an_space"), case["cells"][0].get("an_model", False)):
+        if v is not None:
+            return bool(v)
+    return False
+
+
 def replica_values(case, queries):
     """Pure recomputation by modelx itself: a fresh model with every cells uncached, nothing
     evaluated before, the default (very large) recursion limit, inputs re-applied."""
-    cells = [dict(c, cached=False) for c in case["cells"]]
+    # modelx applies the None rule ("returning None where it is not allowed is an error") only when it stores a value,
+    # i.e. to cached cells; the replica's formulas of cells that are cached in the program enforce it themselves
+    cells = [dict(c, cached=False, enforce_none=bool(c["cached"]) and not documented_allow_none(case, c["id"]))
+             for c in case["cells"]]
     impl = ExecImpl(cells, case["refs"], case["n_rn"], None, log=False)
     try:
         res = []
